@@ -19,6 +19,21 @@ CLAIMS = {
    design="§3 C20"),
 }
 
+ "C04": dict(
+   engine="tiered",
+   technique="Lean 4 proof (refinement to an abstract map; reads correct for arbitrary cache contents) + differential correspondence",
+   text="Theorems C04_query, C04_doc_with_meta, C04_embedding_cache_aware, C04_metadata_exists, C04_bulk_query: in ANY state "
+        "(arbitrary, stale, corrupted or foreign L1a/hot-tier entries, any admission decision) every read flavour returns exactly "
+        "the canonical store's record and leaves the store unchanged; C04_writes_refine / C04_history: over any admissible "
+        "operation sequence the canonical store equals the fold of the write API's map semantics (drains, emergency evictions, "
+        "audits and refused writes change nothing). Tie: the same histories (incl. adversarial plants through insert_cached / "
+        "hot_tier().insert_with_coherence) run through the real TieredEngine and the compiled model, outputs diffed op by op; "
+        "plus a last-successful-write oracle on the implementation.",
+   note="Assumes the payload digest is injective (named hypothesis), circuit breakers closed, sequential histories. Trusted: "
+        "Lean kernel, hand model validated by correspondence, harness.",
+   design="§3 C04"),
+}
+
 NOT_APPLICABLE = {
  "C16": "statistical recall floor of a heuristic ANN graph on sampled distributions: no executable model short of the "
         "implementation itself can express it and no theorem of that kind exists; measuring recall is a different "
